@@ -86,6 +86,14 @@ type runner struct {
 	inflight int
 	overlap  bool
 	inlineBy map[uint64][]int // message id -> tids of inline ops
+	evs      []mev            // Enqueue returns and handler starts, in real order (one thread runs at a time)
+}
+
+// mev is one entry of the order log: kind 0 = Enqueue(sys,id) returned, 1 = the handler of (sys,id) started.
+type mev struct {
+	kind int
+	sys  bool
+	id   uint64
 }
 
 func (r *runner) HandleEnvelop(e vivid.Envelop) {
@@ -95,6 +103,7 @@ func (r *runner) HandleEnvelop(e vivid.Envelop) {
 	}
 	id := e.Message().(uint64)
 	r.log = append(r.log, handled{e.System(), id})
+	r.evs = append(r.evs, mev{1, e.System(), id})
 	for _, tid := range r.inlineBy[id] {
 		vsched.Alias(tid)
 		r.do(r.cfg.ops[tid])
@@ -107,6 +116,7 @@ func (r *runner) do(o op) {
 	switch o.kind {
 	case opSend:
 		r.mb.Enqueue(mailbox.NewEnvelop(o.sys, nil, nil, o.msg))
+		r.evs = append(r.evs, mev{0, o.sys, o.msg})
 	case opPause:
 		r.mb.Pause()
 	case opResume:
@@ -124,13 +134,18 @@ type result struct {
 	overlap  bool
 	stuck    string
 	final    []lib.T
+	evs      []mev
 }
 
 func execute(cfg config, choose func([]int, int) int) result {
+	return executeN(cfg, choose, 4000)
+}
+
+func executeN(cfg config, choose func([]int, int) int, maxSteps int) result {
 	r := &runner{cfg: cfg, inlineBy: map[uint64][]int{}}
 	r.mb = mailbox.NewUnboundedMailbox(cfg.size, r)
 	s := vsched.New(choose)
-	s.MaxSteps = 4000
+	s.MaxSteps = maxSteps
 	for tid, o := range cfg.ops {
 		o := o
 		if o.inline {
@@ -151,7 +166,7 @@ func execute(cfg config, choose func([]int, int) int) result {
 		return []lib.T{lib.N(uint64(st)), lib.N(uint64(pa)), lib.Z(int64(n)), lib.Z(int64(sn)), lib.N(uint64(sl)), lib.N(uint64(ul)), lib.NI(len(r.log))}
 	}
 	s.Run()
-	res := result{trace: s.Trace, choices: s.Choices, log: r.log, deadlock: s.Deadlock, overrun: s.Overrun, overlap: r.overlap}
+	res := result{trace: s.Trace, choices: s.Choices, log: r.log, deadlock: s.Deadlock, overrun: s.Overrun, overlap: r.overlap, evs: r.evs}
 	if s.Deadlock || s.Overrun {
 		res.stuck = s.Stuck()
 	}
@@ -222,6 +237,34 @@ func (h *H) emit(cfg config, res result) {
 	// ---- monitors: the property evaluated on what the real mailbox did ----
 	if res.overlap {
 		h.o.Monitor("overlapping-handlers", in, "two HandleEnvelop invocations were in progress at once")
+	}
+	// system before user (C02): once Enqueue of a system message has returned, at most ONE more user handler may
+	// start before that system message is handled (the user message the consumer had already popped)
+	for i, e := range res.evs {
+		if e.kind != 0 || !e.sys {
+			continue
+		}
+		early := false // handled while its Enqueue had not returned yet: nothing to check
+		for _, f := range res.evs[:i] {
+			if f.kind == 1 && f.sys && f.id == e.id {
+				early = true
+			}
+		}
+		if early {
+			continue
+		}
+		users := 0
+		for _, f := range res.evs[i+1:] {
+			if f.kind == 1 && f.sys && f.id == e.id {
+				break
+			}
+			if f.kind == 1 && !f.sys {
+				users++
+			}
+		}
+		if users > 1 {
+			h.o.Monitor("c02-user-overtakes-system", in, fmt.Sprintf("%d user messages were handled after Enqueue of system message %d had returned and before it was handled (at most 1 allowed)", users, e.id))
+		}
 	}
 	if res.overrun {
 		h.o.Monitor("no-termination", in, "the mailbox kept taking steps (spin / livelock): "+res.stuck)
@@ -422,6 +465,33 @@ func main() {
 		h.emit(cfg, execute(cfg, ch))
 	}
 	o.Info["random_runs"] = n
+	// large backlogs: the handler of message 1 enqueues 64..160 user messages (so they are all queued while the
+	// consumer is busy), the handler of one of them enqueues a system message (and sometimes pauses), another
+	// system message and a Pause/Resume pair come from threads of their own: system-before-user and the pause
+	// check must hold between ANY two user messages of a long queue, not only of a short one
+	nb := 3
+	if thorough {
+		nb = 40
+	}
+	for i := 0; i < nb; i++ {
+		k := 64 + r.Intn(97)
+		ops := []op{u(1)}
+		for m := uint64(2); m < uint64(2+k); m++ {
+			ops = append(ops, in(u(m), 1))
+		}
+		at := uint64(2 + r.Intn(k-1))
+		ops = append(ops, in(s(1000), at))
+		if r.Chance(1, 3) {
+			ops = append(ops, in(pause, uint64(2+r.Intn(k-1))), resume)
+		}
+		if r.Bool() {
+			ops = append(ops, s(1001))
+		}
+		cfg := config{ops: ops, size: []int64{1, 8, 64, 256}[r.Intn(4)]}
+		rr := r.Fork()
+		h.emit(cfg, executeN(cfg, vsched.StickyChooser(rr.Intn, 3+r.Intn(20)), 40000))
+	}
+	o.Info["backlog_runs"] = nb
 	o.Close(f.Report)
 	if len(o.Monitors) > 0 {
 		os.Exit(3)
